@@ -49,32 +49,112 @@ def mem_derived(sym):
     return False
 
 
-def cursor_variant(I, l, p):
-    """True when the loop test is `index < bound` (or `bound > index`, `<=`, `!=` excluded) with the index a loop cursor that
+def lower_bound_by_value(sym, facts):
+    """sym_lower_bound, also finding the path facts recorded for another object with the same value (same polynomial)"""
+    lb = sym_lower_bound(sym, facts)
+    sym = norm_int(sym)
+    if isinstance(sym, Sym) and sym.poly is not None:
+        from ..values import p_key
+        want = p_key(sym.poly)
+        for k, f in facts.items():
+            if isinstance(k, tuple) and len(k) == 2 and k[0] == "sym" and isinstance(k[1], tuple) and len(k[1]) == 2 and k[1][1] == want:
+                cand = sym.lo if sym.lo is not None else 0
+                if f[0] == "eq" and isinstance(f[1], int):
+                    cand = f[1]
+                elif f[0] == "range":
+                    cand = max(cand, f[1][0])
+                elif f[0] == "ne":
+                    while cand in f[1]:
+                        cand += 1
+                lb = cand if lb is None else max(lb, cand)
+    return lb
+
+
+def advance_lower_bound(I, l, dp, p, cname, depth=0):
+    """how far the cursor `cname` advances at least over one iteration of loop record l (None: not by adding)"""
+    name = cname[2]
+    end = l["raw"]["end"].get(name)
+    es = I.cursor_split(end, registered=False)
+    if es is not None and es[0] == cname:
+        return lower_bound_by_value(es[1], p.facts)
+    # the variable went through an inner loop: what it had advanced before that loop is a lower bound, provided the inner
+    # loop itself only ever adds to it
+    endv = norm_int(end)
+    if isinstance(endv, Sym) and endv.poly is not None and depth < 3:
+        afters = [m[0] for m in endv.poly if len(m) == 1 and isinstance(m[0], tuple) and m[0][:1] == ("after",)]
+        if len(afters) == 1 and endv.poly.get((afters[0],)) == 1:
+            inner_id = afters[0][1]
+            for l2 in dp.loops:
+                if l2["raw"]["loop"] == inner_id and name in l2["raw"]["pre"]:
+                    inner_c = ("loopvar", inner_id, name)
+                    inner_adv = advance_lower_bound(I, l2, dp, p, inner_c, depth + 1)
+                    if l2["exit"] in ("raise", "return"):
+                        continue
+                    if inner_adv is None or inner_adv < 0:
+                        return None
+                    before = I.cursor_split(l2["raw"]["pre"][name], registered=False)
+                    if before is not None and before[0] == cname:
+                        lb = lower_bound_by_value(before[1], p.facts)
+                        rest = {m: c for m, c in endv.poly.items() if m != (afters[0],)}
+                        const = rest.get((), 0) if all(m == () for m in rest) else None
+                        if lb is not None and const is not None:
+                            return lb + const
+    return None
+
+
+def cursor_variant(I, l, dp, p):
+    """True when (a conjunct of) the loop test is `index < bound` (or `bound > index`) with the index a loop cursor that
     every iteration advances by at least 1 and the bound not derived from the buffer's content; else a reason"""
-    ops = l["raw"].get("test_operands")
-    if not ops:
+    tests = l["raw"].get("test_operands")
+    if not tests:
         return None
-    op, a, b = ops
-    if op in ("Gt", "GtE"):
-        a, b = b, a
-    elif op not in ("Lt", "LtE"):
-        return "the comparison (%s) does not bound an increasing index (the index can step over the bound)" % op
-    cs = I.cursor_split(a)
-    if cs is None:
-        return "neither side is an index the loop advances by adding to it"
-    if mem_derived(b):
-        return "the bound is read from the device buffer (the iteration count is then the device's choice)"
-    if I.cursor_split(b) is not None:
-        return "both sides change in the loop"
-    head, end = l["raw"]["head"].get(cs[0][2]), l["raw"]["end"].get(cs[0][2])
-    es = I.cursor_split(end)
-    if es is None or es[0] != cs[0]:
-        return "the index is not advanced by adding to it"
-    lb = sym_lower_bound(es[1], p.facts)
-    if lb is None or lb < 1:
-        return "the index advances by at least %s per iteration" % lb
-    return True
+    why = None
+    for op, a, b in tests:
+        if op in ("Gt", "GtE"):
+            a, b = b, a
+        elif op not in ("Lt", "LtE"):
+            why = why or "the comparison (%s) does not bound an increasing index (the index can step over the bound)" % op
+            continue
+        cs = I.cursor_split(a, registered=False)
+        if cs is None or cs[0][1] != l["raw"]["loop"]:
+            why = why or "neither side is an index the loop advances by adding to it"
+            continue
+        if mem_derived(b) and getattr(norm_int(b), "capped_by_view", None) is None:
+            why = why or "the bound is read from the device buffer (the iteration count is then the device's choice)"
+            continue
+        cb = I.cursor_split(b, registered=False)
+        if cb is not None and cb[0][1] == l["raw"]["loop"]:
+            why = why or "both sides change in the loop"
+            continue
+        lb = advance_lower_bound(I, l, dp, p, cs[0])
+        if lb is None:
+            why = why or "the index is not advanced by adding to it"
+            continue
+        if lb < 1:
+            why = why or "the index advances by at least %s per iteration" % lb
+            continue
+        return True
+    return why
+
+
+def content_count(a):
+    """a count / bound taken from the buffer's content and not capped by the buffer's own length"""
+    return mem_derived(a) and getattr(norm_int(a), "capped_by_view", None) is None
+
+
+def loop_has_own_break(fnode, range_node):
+    """does the for statement that iterates over this range(...) call contain a break of its own?"""
+    for n in ast.walk(fnode):
+        if isinstance(n, (ast.For, ast.AsyncFor)) and any(x is range_node for x in ast.walk(n.iter)):
+            stack = list(n.body)
+            while stack:
+                st = stack.pop()
+                if isinstance(st, ast.Break):
+                    return True
+                if isinstance(st, (ast.For, ast.AsyncFor, ast.While, ast.FunctionDef, ast.ClassDef)):
+                    continue
+                stack.extend(ast.iter_child_nodes(st))
+    return False
 
 
 def len_vars(test):
@@ -161,6 +241,7 @@ def check(prog, run):
     nfunc = 0
     seen_loops = {}
     for_ranges = set()
+    undecided = []
     for f in targets:
         nfunc += 1
         params = [p.arg for p in f.node.args.args]
@@ -208,7 +289,12 @@ def check(prog, run):
                 if e["kind"] == "alloc-dynamic" and mem_derived(e["size"]):
                     run.violation("no-allocation-sized-by-content", "%s %s" % (f.qualname, norm(e["node"])),
                                   "a buffer is allocated with a size read from the device buffer", file, e["node"].lineno, f.qualname)
-                if e["kind"] == "range-dynamic" and any(mem_derived(a) for a in e["args"]):
+                if e["kind"] == "range-dynamic" and any(content_count(a) for a in e["args"]) and loop_has_own_break(f.node, e["node"]):
+                    # a count read from the buffer bounds the loop from above only: the body can leave it earlier (when the
+                    # buffer is used up, say); whether it always does is not decided here
+                    undecided.append("%s %s: the count is read from the device buffer, but the loop body can break out"
+                                     % (f.qualname, norm(e["node"])))
+                elif e["kind"] == "range-dynamic" and any(content_count(a) for a in e["args"]):
                     run.violation("no-iteration-count-from-content", "%s %s" % (f.qualname, norm(e["node"])),
                                   "the iteration count is read from the device buffer (up to 2^n iterations for an n-bit field, "
                                   "independent of the buffer length)", file, e["node"].lineno, f.qualname)
@@ -229,14 +315,18 @@ def check(prog, run):
                     continue
                 lv = len_vars(test)
                 ops_ = l["raw"].get("test_operands")
-                if ops_ and any(I.cursor_split(x) is not None for x in ops_[1:]):
+                if ops_ and any(I.cursor_split(x, registered=False) is not None for t_ in ops_ for x in t_[1:]):
                     lv = set()       # the test compares an index: the variant is bound - index, whatever the bound is called
                 if not lv:
                     # no len(...) in the test itself: an index compared with a bound that is not read from the buffer's content
                     # (a static number, or a length computed earlier) and advanced by at least one per iteration is a variant too
-                    verdict = cursor_variant(I, l, p)
+                    verdict = cursor_variant(I, l, dp, p)
                     if verdict is True:
                         run.ok("loop-has-variant", lid, {"variant": "bound - index", "path": p.cond_str()[:120]})
+                    elif verdict and "advances by at least" in verdict and any(e["kind"] == "imprecise-decision" for e in p.events):
+                        lost = [e for e in p.events if e["kind"] == "imprecise-decision"][0]
+                        undecided.append("%s: %s on a path that depends on `%s` (%s), a value the analysis does not follow"
+                                         % (lid, verdict, lost["what"], lost["reason"]))
                     else:
                         run.violation("loop-has-variant", lid, "the loop test %s: no recognised variant -- a device that sends a "
                                       "suitable length loops the initiator forever"
@@ -281,6 +371,8 @@ def check(prog, run):
         else:
             run.ok("decoder-call-graph-acyclic", f.qualname, nontrivial=False)
     nloops = len(seen_loops) + len(for_ranges)
+    if undecided and not any(v["rule"] in ("loop-has-variant", "no-iteration-count-from-content") for v in run.violations):
+        raise AnalysisError("loop-variant-undecided", "; ".join(undecided[:2]))
     # every while loop in a decoder must have been seen by the summariser or be static
     for f in targets:
         for n in I.own_nodes(f.node):
